@@ -11,6 +11,12 @@
 //     the VerifC21QueryWindow hook, one by one, waiting after each until the capture routine has come
 //     back for the next one or has reported a local buffer overflow (the report is observed where the
 //     product emits it: the error log line written by Manager.logErrors).
+//   - every wait is bounded (WaitDeadline, generous; far beyond what a loaded machine needs). On the
+//     unchanged code no wait ever expires, so the deadline is not a synchronisation device. If one
+//     expires (e.g. a packet was taken by the capture routine, the routine neither came back nor was an
+//     overflow reported) this is recorded in the observation (Result.Stalled, the packet is listed as
+//     lost while Overflows stays what was actually reported) and the run carries on or is abandoned
+//     cleanly; after the first expiry in a process the later waits use ShortDeadline.
 package vsrc
 
 import (
@@ -53,6 +59,41 @@ type Source struct {
 	waiting   bool
 	overflows int
 	inStats   func()
+	stalled   int // number of waits that expired
+}
+
+// deadlines of the bounded waits
+var (
+	WaitDeadline  = 25 * time.Second
+	ShortDeadline = 400 * time.Millisecond
+	expiredOnce   atomic.Bool
+)
+
+// waitUntil waits (mu held) until cond() holds or the deadline passes; it reports whether cond() holds
+func (s *Source) waitUntil(cond func() bool) bool {
+	if cond() {
+		return true
+	}
+	d := WaitDeadline
+	if expiredOnce.Load() {
+		d = ShortDeadline
+	}
+	deadline := time.Now().Add(d)
+	t := time.AfterFunc(d, func() {
+		s.mu.Lock()
+		s.cond.Broadcast()
+		s.mu.Unlock()
+	})
+	defer t.Stop()
+	for !cond() {
+		if !time.Now().Before(deadline) {
+			expiredOnce.Store(true)
+			s.stalled++
+			return false
+		}
+		s.cond.Wait()
+	}
+	return true
 }
 
 var errUnsupported = errors.New("not supported by the scripted source")
@@ -114,8 +155,8 @@ func (s *Source) Stats() (slimcap.Stats, error) {
 	return slimcap.Stats{}, nil
 }
 
-func (s *Source) Link() *link.Link           { return nil }
-func (s *Source) NewPacket() slimcap.Packet  { return nil }
+func (s *Source) Link() *link.Link          { return nil }
+func (s *Source) NewPacket() slimcap.Packet { return nil }
 func (s *Source) NextPacket(slimcap.Packet) (slimcap.Packet, error) {
 	return nil, errUnsupported
 }
@@ -132,34 +173,68 @@ func (s *Source) NextPayloadZeroCopy() ([]byte, slimcap.PacketType, uint32, erro
 
 func (s *Source) idle() bool { return len(s.queue) == 0 && s.waiting && !s.unblock }
 
-// WaitIdle returns when every queued packet has been fully processed (the capture routine is parked
-// in NextIPPacketZeroCopy with nothing to do)
-func (s *Source) WaitIdle() {
+// WaitIdle returns true when every queued packet has been fully processed (the capture routine is
+// parked in NextIPPacketZeroCopy with nothing to do), false if that did not happen within the deadline
+func (s *Source) WaitIdle() bool {
 	s.mu.Lock()
-	for !s.idle() {
-		s.cond.Wait()
-	}
-	s.mu.Unlock()
+	defer s.mu.Unlock()
+	return s.waitUntil(s.idle)
 }
 
 // Feed hands out the packets one by one. It returns len(pkts) when all were taken and processed, or
 // the index of the packet after whose delivery a local buffer overflow was reported (that packet is
-// the one the capture routine could not buffer; the later ones were not handed out).
-func (s *Source) Feed(pkts []qitem) int {
+// the one the capture routine could not buffer; the later ones were not handed out). stalled = true:
+// after the delivery of that packet the routine neither came back for the next one nor was an overflow
+// reported within the deadline (the packet is gone without a report).
+func (s *Source) Feed(pkts []qitem) (n int, stalled, taken bool) {
 	s.mu.Lock()
 	defer s.mu.Unlock()
 	for i, p := range pkts {
 		before := s.overflows
 		s.queue = append(s.queue, p)
 		s.cond.Broadcast()
-		for !s.idle() && s.overflows == before {
-			s.cond.Wait()
+		ok := s.waitUntil(func() bool { return s.idle() || s.overflows != before })
+		if !ok {
+			if len(s.queue) > 0 { // not even taken: withdraw it
+				s.queue = s.queue[:len(s.queue)-1]
+				return i, true, false
+			}
+			return i, true, true
 		}
 		if s.overflows != before {
-			return i
+			return i, false, true
 		}
 	}
-	return len(pkts)
+	return len(pkts), false, true
+}
+
+// deadlines for calls into the Manager (its three-point lock has 30 s timeouts of its own, after which
+// it closes the capture; memory pool and WaitGroup waits inside it have none)
+var (
+	CallDeadline      = 75 * time.Second
+	ShortCallDeadline = 5 * time.Second
+)
+
+// bounded runs f and reports whether it returned within the deadline (if not, f's goroutine is abandoned)
+func bounded(f func()) bool {
+	done := make(chan struct{})
+	go func() {
+		defer close(done)
+		f()
+	}()
+	d := CallDeadline
+	if expiredOnce.Load() {
+		d = ShortCallDeadline
+	}
+	t := time.NewTimer(d)
+	defer t.Stop()
+	select {
+	case <-done:
+		return true
+	case <-t.C:
+		expiredOnce.Store(true)
+		return false
+	}
 }
 
 func (s *Source) noteOverflow() {
@@ -239,6 +314,8 @@ type Result struct {
 	Queries        []Agg    // one per live-query window
 	Lost           []int    // indices (into Evs) of the packets lost to a reported overflow
 	Overflows      int      // number of overflow reports
+	Stalled        int      // number of waits for the capture routine that expired (0 on a healthy run)
+	Aborted        string   `json:",omitempty"` // why the run was abandoned (only with Stalled > 0)
 }
 
 // Handler records what reaches the write-out handler and optionally forwards it to a real handler
@@ -339,11 +416,30 @@ func Run(s Schedule, forward func(ctx context.Context, timestamp time.Time, ch <
 	closed := false
 	defer func() {
 		if !closed {
-			cm.Close(ctx, Iface)
+			bounded(func() { cm.Close(ctx, Iface) })
 		}
 	}()
 
 	res = &Result{}
+	callStalls := 0
+	// abort abandons the run cleanly: the observation says why, the capture is not closed through the
+	// Manager (that could wait for a routine that is stuck), its goroutines are left behind
+	abort := func(reason string, stall bool) (*Result, error) {
+		if stall {
+			callStalls++
+		}
+		src.mu.Lock()
+		res.Stalled = src.stalled + callStalls
+		res.Overflows = src.overflows
+		src.mu.Unlock()
+		if res.Stalled == 0 {
+			res.Stalled = 1
+		}
+		res.Aborted = reason
+		_ = src.Close()
+		closed = true
+		return res, nil
+	}
 	nWriteouts := 0
 	i := 0
 	for i < len(s.Evs) {
@@ -354,7 +450,9 @@ func Run(s Schedule, forward func(ctx context.Context, timestamp time.Time, ch <
 			if err != nil {
 				return nil, err
 			}
-			src.Feed([]qitem{it})
+			if _, stalled, _ := src.Feed([]qitem{it}); stalled {
+				return abort(fmt.Sprintf("event %d: packet outside a lock window was not processed within the deadline", i), false)
+			}
 			i++
 		case "lock":
 			// collect the packets of the window
@@ -377,34 +475,51 @@ func Run(s Schedule, forward func(ctx context.Context, timestamp time.Time, ch <
 			}
 			var held []qitem
 			inWindow := func() {
-				n := src.Feed(win)
-				if n < len(win) {
+				n, stalled, taken := src.Feed(win)
+				switch {
+				case n >= len(win):
+				case stalled && !taken:
+					held = win[n:] // the routine does not read at all: try again after the unlock
+				default:
+					// reported overflow, or (stalled) the packet was taken and the routine neither came back nor
+					// reported anything: either way the packet is gone; Overflows counts the reports actually seen
 					res.Lost = append(res.Lost, idx[n])
 					held = win[n+1:]
 				}
 			}
-			src.WaitIdle()
+			if !src.WaitIdle() {
+				return abort(fmt.Sprintf("event %d: capture routine not idle before the lock request", i), false)
+			}
 			switch e.W {
 			case "status":
 				src.mu.Lock()
 				src.inStats = inWindow
 				src.mu.Unlock()
-				st, ok := cm.Status(ctx, Iface)[Iface]
+				var st capturetypes.CaptureStats
+				var ok bool
+				if !bounded(func() { st, ok = cm.Status(ctx, Iface)[Iface] }) {
+					return abort(fmt.Sprintf("event %d: Status() did not return", i), true)
+				}
 				if !ok {
-					return nil, errors.New("Status() returned nothing for the interface")
+					return abort(fmt.Sprintf("event %d: Status() returned nothing for the interface (lock failed)", i), true)
 				}
 				res.Statuses = append(res.Statuses, Status{st.Processed, st.ProcessedTotal, append([]int(nil), st.ParsingErrors[:]...)})
 			case "writeout":
 				src.mu.Lock()
 				src.inStats = inWindow
 				src.mu.Unlock()
+				h.mu.Lock()
 				before := len(h.Written)
-				cm.VerifC21Writeout(ctx, time.Unix(BaseTime+300*int64(nWriteouts), 0))
+				h.mu.Unlock()
+				if !bounded(func() { cm.VerifC21Writeout(ctx, time.Unix(BaseTime+300*int64(nWriteouts), 0)) }) {
+					return abort(fmt.Sprintf("event %d: write-out did not return", i), true)
+				}
 				nWriteouts++
 				h.mu.Lock()
 				if len(h.Written) != before+1 {
+					n := len(h.Written) - before
 					h.mu.Unlock()
-					return nil, fmt.Errorf("write-out handed %d maps to the handler", len(h.Written)-before)
+					return abort(fmt.Sprintf("event %d: write-out handed %d maps to the handler (lock failed)", i, n), true)
 				}
 				res.Written = append(res.Written, h.Written[before])
 				res.Statuses = append(res.Statuses, h.Stats[before])
@@ -412,7 +527,9 @@ func Run(s Schedule, forward func(ctx context.Context, timestamp time.Time, ch <
 			case "query":
 				if len(win) == 0 {
 					ch := make(chan hashmap.AggFlowMapWithMetadata, 1)
-					cm.GetFlowMaps(ctx, nil, ch, Iface)
+					if !bounded(func() { cm.GetFlowMaps(ctx, nil, ch, Iface) }) {
+						return abort(fmt.Sprintf("event %d: GetFlowMaps() did not return", i), true)
+					}
 					select {
 					case m := <-ch:
 						res.Queries = append(res.Queries, AggOf(m.AggFlowMap))
@@ -420,9 +537,13 @@ func Run(s Schedule, forward func(ctx context.Context, timestamp time.Time, ch <
 						res.Queries = append(res.Queries, Agg{Nil: true})
 					}
 				} else {
-					m, err := cm.VerifC21QueryWindow(ctx, Iface, inWindow)
-					if err != nil {
-						return nil, err
+					var m *hashmap.AggFlowMap
+					var qerr error
+					if !bounded(func() { m, qerr = cm.VerifC21QueryWindow(ctx, Iface, inWindow) }) {
+						return abort(fmt.Sprintf("event %d: query window did not return", i), true)
+					}
+					if qerr != nil {
+						return abort(fmt.Sprintf("event %d: query window: %v", i, qerr), true)
 					}
 					res.Queries = append(res.Queries, AggOf(m))
 				}
@@ -430,16 +551,24 @@ func Run(s Schedule, forward func(ctx context.Context, timestamp time.Time, ch <
 				return nil, fmt.Errorf("unknown window kind %q", e.W)
 			}
 			// packets the source still holds after an overflow are delivered after the unlock
-			src.Feed(held)
+			if _, stalled, _ := src.Feed(held); stalled {
+				return abort(fmt.Sprintf("event %d: packets held back during the window were not processed after it", i), false)
+			}
 			i = j + 1
 		default:
 			return nil, fmt.Errorf("event %d: unexpected %q", i, e.K)
 		}
 	}
-	src.WaitIdle()
-	st, err := cm.VerifC21Dump(Iface)
-	if err != nil {
-		return nil, err
+	if !src.WaitIdle() {
+		return abort("capture routine not idle at the end", false)
+	}
+	var st *capture.VerifC21State
+	var derr error
+	if !bounded(func() { st, derr = cm.VerifC21Dump(Iface) }) {
+		return abort("flow log dump under the lock did not return", true)
+	}
+	if derr != nil {
+		return abort(fmt.Sprintf("flow log dump: %v", derr), true)
 	}
 	for _, f := range st.V4 {
 		res.V4 = append(res.V4, Flow{hex.EncodeToString(f.Key), f.BytesRcvd, f.BytesSent, f.PacketsRcvd, f.PacketsSent})
@@ -452,8 +581,13 @@ func Run(s Schedule, forward func(ctx context.Context, timestamp time.Time, ch <
 	res.Processed, res.ProcessedTotal, res.Errs = st.Processed, st.ProcessedTotal, st.ParsingErrors
 	src.mu.Lock()
 	res.Overflows = src.overflows
+	res.Stalled = src.stalled + callStalls
 	src.mu.Unlock()
 	closed = true
-	cm.Close(ctx, Iface)
+	if !bounded(func() { cm.Close(ctx, Iface) }) {
+		res.Stalled++
+		res.Aborted = "closing the capture did not return"
+		_ = src.Close()
+	}
 	return res, nil
 }
